@@ -4,12 +4,17 @@ CONSTANTS
   VarShort = 2
   VarLong = 4
   Padding = TRUE
-  Labels = {"la", "lb", "lc"}
+  Labels = {"la", "lb", "lc", "LA", "La"}
   Fills = {}
   AbsWidths = {2, 4}
   EquOffs = {}
   SelfKinds = {}
   Pages = {}
+  RefKinds = {}
+  Sects = {"s", "t"}
+  Quals = {8}
+  Alias = {{"la", "LA", "La"}}
+  CaseSens = FALSE
 INIT OInit
 NEXT ONext
 POSTCONDITION Accepted
